@@ -57,6 +57,10 @@ NUMS = ["1", "1.", ".5", "1.5", "007", "10", "0", "2", "3", "0.0", "12.25", "100
 WS = [" ", " ", "  ", "\t", "\n", "\r\n", "\r", " \t "]
 
 
+# props/C02_compiler.py sets this to False when translator/gen_xpc.py reports the tokenizer repaired (fix_dot_token)
+DOT_NEEDS_SPACE = True
+
+
 class Op(str):
     """a binary operator token (the pretty print puts spaces around it)"""
 
@@ -349,9 +353,9 @@ def join(ts, r=None, p=0.0, pretty=True):
             a = ts[i - 1]
             if r is not None and r.random() < p:
                 out.append(r.choice(WS))
-            elif need_space(str(a), str(t)) or (a in (".", "..") and isinstance(t, Op) and (t[0].isalpha() or t == "-")):
-                # the second case: the library's tokenizer reads '.div' and '.-' as one token (a recorded deviation from
-                # the longest-token rule, see the boundary strings '.div 2', '.-5'); stream (i) stays out of it
+            elif need_space(str(a), str(t)) or (DOT_NEEDS_SPACE and a in (".", "..") and isinstance(t, Op) and (t[0].isalpha() or t == "-")):
+                # the second case: the unrepaired tokenizer reads '.div' and '.-' as one token (finding K-xpc-dot-glue, see
+                # corpus/C02c/k_xpc_dot_glue.txt); stream (i) stays out of it until the source says it is repaired
                 out.append(" ")
             elif pretty and (isinstance(a, Op) or isinstance(t, Op) or a == ","):
                 out.append(" ")
@@ -681,6 +685,17 @@ def corpus_dir():
 
 def load_boundary():
     p = os.path.join(corpus_dir(), "boundary.lst")
+    if not os.path.exists(p):
+        return None
+    return [json.loads(l) for l in open(p, encoding="utf-8") if l.startswith('"')]
+
+
+REGRESSION_FILES = {"K-xpc-name-chars": "k_xpc_name_chars.txt", "K-xpc-dot-glue": "k_xpc_dot_glue.txt", "K-xpc-unicode-digit": "k_xpc_unicode_digit.txt"}
+
+
+def load_strings(name):
+    """a regression file of corpus/C02c: '#' comment lines, then one JSON string per line; None when it is missing"""
+    p = os.path.join(corpus_dir(), name)
     if not os.path.exists(p):
         return None
     return [json.loads(l) for l in open(p, encoding="utf-8") if l.startswith('"')]
